@@ -38,6 +38,13 @@ MODEL = 'tee'
 BASE = 100  # element i is the value BASE + i
 
 
+class DataErr(Exception):
+    """an exception OBJECT that is an ordinary element of the source (e.g. what parmap(return_exceptions=True) yields)"""
+    def __init__(self, i):
+        super().__init__(i)
+        self.i = i
+
+
 class SrcError(Exception):
     pass
 
@@ -215,7 +222,10 @@ def gen_case(rng: random.Random, tier: str, bias: str = ''):
         src = rng.choice(['exc', 'exc', 'stopreq'])
     ch = rng.choice(CHOOSERS + ([('sticky', 0.05), ('sticky', 0.02)] if bias == 'wedge' else []))
     early = rng.choice([0.0, 0.0, 0.02, 0.1])
-    return dict(nforks=nforks, bs=bs, n=n, src=src, line=rng.random() < 0.8,
+    # some elements are exception objects (data, not failures): instances of an own class, of the class the source
+    # fails with, and of StopRequested
+    excvals = sorted({rng.randrange(n) for _ in range(rng.choice([1, 2]))}) if n and rng.random() < 0.25 else []
+    return dict(nforks=nforks, bs=bs, n=n, src=src, line=rng.random() < 0.8, excvals=excvals,
                 chooser=list(ch) + [early], seed=rng.randrange(1 << 30))
 
 
@@ -305,6 +315,16 @@ def run_case(case):
     st = {'pulled': 0, 'recv': [0] * nforks, 'inside': 0, 'dead': False, 'max_ahead': 0, 'i': 0,
           'exc_obj': None}
     viol = ctx.viol
+    excvals = set(case.get('excvals') or [])
+    datum = {i: [DataErr(i), SrcError(i), StopRequested(i)][k % 3] for k, i in enumerate(sorted(excvals))}
+
+    def _idx(v):
+        if isinstance(v, int):
+            return v - BASE
+        for i, d in datum.items():
+            if v is d:
+                return i
+        return -1
 
     class Src:
         def __iter__(self):
@@ -329,6 +349,8 @@ def run_case(case):
                     if ahead > st['max_ahead']:
                         st['max_ahead'] = ahead
                     _log('pull', f, i)
+                    if i in excvals:
+                        return datum[i]
                     return BASE + i
                 if case['src'] == 'clean':
                     _log('srcEnd', f)
@@ -358,6 +380,9 @@ def run_case(case):
                 ends[i] = ['stop']
                 break
             except (SrcError, StopRequested) as e:
+                if any(e is d for d in datum.values()):
+                    ends[i] = ['error', 'a DATA element that is an exception object was RAISED: ' + repr(e)[:100]]
+                    break
                 _log('exc', i)
                 ends[i] = ['exc', type(e).__name__] + ([] if e is st['exc_obj'] else ['not-the-source-exception-object'])
                 break
@@ -369,7 +394,7 @@ def run_case(case):
                 break
             outs[i].append(v)
             st['recv'][i] += 1
-            _log('recv', i, v - BASE if isinstance(v, int) else -1)
+            _log('recv', i, _idx(v))
         if lock_owner_is_me():
             viol.append(('lock-released', f'fork {i} ended ({ends[i]}) still holding the source lock'))
 
@@ -400,7 +425,7 @@ def run_case(case):
         evs = evs[:700]          # a hung run spins; the prefix is what gets validated and stored
     res = dict(events=evs, steps=s.steps, switches=s.switches,
                trace=s.trace if case.get('keep_trace') else None, max_ahead=st['max_ahead'],
-               outs=[[x - BASE if isinstance(x, int) else repr(x) for x in o] for o in outs], ends=ends,
+               outs=[[_idx(x) if _idx(x) >= 0 else repr(x) for x in o] for o in outs], ends=ends,
                monitors=[], completed=e is None)
     mon = res['monitors']
     exp_out, exp_end = expected(case)
